@@ -47,7 +47,8 @@ pub async fn finish(sim: &mut Sim, idle_ms: u64) {
         for p in peers {
             let nonce = sim.nonce();
             let net = sim.net(i).clone();
-            let _ = sim::rpc(
+            // ListedReachable: at quiescence every listed peer can be reached
+            let _ = sim::rpc_must(
                 &sim.run,
                 &net,
                 i as i64,
@@ -150,8 +151,21 @@ pub async fn history(mut sim: Sim, o: Opts) -> Result<Value, String> {
                     }));
                 }
             }
-            35..=49 if alive(&sim, a) => {
+            35..=44 if alive(&sim, a) => {
                 sim.disconnect(a, sim.peer_id(b));
+                if sim.rng.gen_bool(0.5) {
+                    // DisconnectNow: an RPC right after the disconnect must be refused
+                    let nonce = sim.nonce();
+                    let net = sim.net(a).clone();
+                    let _ = sim::rpc(&sim.run, &net, a as i64, sim.peer_id(b),
+                        Request::new(Bytes::from_static(b"x")).with_route("/after-disconnect"), nonce).await;
+                }
+            }
+            45..=49 if alive(&sim, a) => {
+                let nonce = sim.nonce();
+                let net = sim.net(a).clone();
+                let _ = sim::rpc(&sim.run, &net, a as i64, sim.peer_id(b),
+                    Request::new(Bytes::from_static(b"y")).with_route("/any"), nonce).await;
             }
             50..=57 if alive(&sim, a) => {
                 let _ = sim.subscribe(a);
@@ -161,7 +175,7 @@ pub async fn history(mut sim: Sim, o: Opts) -> Result<Value, String> {
                 sim.obs_all_peers();
             }
             68..=79 => {
-                let ms = [0u64, 1, 2, 3, 5, 20, 200, 3_000][sim.rng.gen_range(0..8)];
+                let ms = [0u64, 1, 2, 3, 5, 20, 200, 3_000, 12_000][sim.rng.gen_range(0..if o.faults { 9 } else { 8 })];
                 settle(&mut sim, ms).await;
             }
             80..=87 if o.faults => {
